@@ -377,6 +377,10 @@ TForceClose == /\ IsEvent("force_close") /\ NoAcc
 \* every broadcast transaction has been mined and every timelock of the run has expired
 TSettled == /\ IsEvent("settled") /\ UNCHANGED <<cvars, nodeOf, saved, everRAA, projB>>
             /\ fw' = [fw EXCEPT !.settled = TRUE]
+\* the recipient's own spend of the HTLC output with the preimage has confirmed (`claim_onchain`: the preimage went straight
+\* to its monitor): it took the money as surely as through a PaymentClaimed -- C02 "by message or from the chain"
+TOnchainClaimed == /\ IsEvent("onchain_claimed") /\ UNCHANGED <<cvars, nodeOf, saved, everRAA, projB>>
+                   /\ fw' = [fw EXCEPT !.claimedEv = @ \cup {R.hash}]
 HasEv(S, n, h) == \E p \in S : p[1] = n /\ p[2] = h
 TEventRefused ==
   /\ IsEvent("event_refused") /\ UNCHANGED <<cvars, nodeOf, saved, everRAA, projB>>
@@ -495,7 +499,7 @@ TEvHead ==
   /\ fw' = [fw EXCEPT !.evhead = [n \in DOMAIN @ \cup {R.node} |-> IF n = R.node THEN R.id ELSE @[n]]]
 
 TOther ==
-  /\ l <= Len(Rec) /\ Rec[l].ev \in {"forward", "intercept_fwd", "intercept_fail", "signer", "fee", "block", "persist_mode", "restarted", "close", "open_extra", "pause_flush", "flush", "hold_events", "settle_chain", "mine_skipped", "sweeper_track_failed", "config"}
+  /\ l <= Len(Rec) /\ Rec[l].ev \in {"forward", "intercept_fwd", "intercept_fail", "signer", "fee", "block", "persist_mode", "restarted", "close", "open_extra", "pause_flush", "flush", "hold_events", "settle_chain", "mine_skipped", "kill", "claim_onchain", "sweeper_track_failed", "config"}
   /\ l' = l + 1 /\ UNCHANGED <<cvars, nodeOf, saved, everRAA, projB>>
   \* (time passing, fee changes, a slow signer, ... : whatever was promised about a quiet channel is off)
   \* (the `fee` operation makes the node's timer tick once more without a `tick` record: the tick counts start again)
@@ -571,7 +575,7 @@ TFin ==
                                     {a \in fw.adds : a.node = n /\ a.dir = "in"})
                IN gotIn >= paidOut)
 
-TraceNext == TTick \/ TEvHead \/ TBcastUpdate \/ TClaimOp \/ TSweeper \/ TForceClose \/ TSettled \/ TEventRefused \/ TFin \/ TScorer \/ TExtra \/ TOpen \/ TMsg \/ TDeliver \/ TPersist \/ TComplete \/ TSend \/ TDisconnect \/ TReconnect
+TraceNext == TOnchainClaimed \/ TTick \/ TEvHead \/ TBcastUpdate \/ TClaimOp \/ TSweeper \/ TForceClose \/ TSettled \/ TEventRefused \/ TFin \/ TScorer \/ TExtra \/ TOpen \/ TMsg \/ TDeliver \/ TPersist \/ TComplete \/ TSend \/ TDisconnect \/ TReconnect
              \/ TEvent \/ TOther \/ TMgrSnap \/ TCrash \/ TBroadcast \/ TProj
 
 TraceSpec == TraceInit /\ [][TraceNext]_tvars
